@@ -59,7 +59,9 @@ def lean_theorems(module):
     src = open(path).read()
     ns = []
     names = []
-    for line in src.splitlines():
+    # scan the comment-free text: a doc comment may contain a line that begins with the word `theorem`
+    code = re.sub(r'/-.*?-/', lambda m: '\n' * m.group(0).count('\n'), src, flags=re.S)
+    for line in code.splitlines():
         m = re.match(r'\s*namespace\s+(\S+)', line)
         if m:
             ns.append(m.group(1)); continue
